@@ -1101,6 +1101,7 @@ def check_property(ctx, pid):
             "stage_key": stage.get("key"),
             "hidden_state_audit": {"constructs_in_source": len(aud_all), "in_files_this_property_is_anchored_in": aud_hits[:6]},
             "extraction_crosscheck": stage.get("extraction_crosscheck"),
+            **({"panic_site_inventory": __import__("panic_sites").audit(ctx.repo, ctx.verif)} if pid == "C19" else {}),
         },
         "assumptions": ASSUMPTIONS.get(pid, []) + ["model tied to /repo by differential correspondence (not proof) over the cases counted above",
                                                    "data (masks, tables, enum orders, Unicode classes) regenerated from /repo by tools/gen_coq.py on this run"],
